@@ -2,7 +2,7 @@
    conforming value, that text is the canonical text of the SPEC tree json_of o d v in which every double is spelled by a JSON
    number lexeme denoting exactly its bits. *)
 From Coq Require Import ZArith List Bool Lia.
-From DG Require Import ProtoWireRef ThriftWire ThriftWireProofs Json Num Base64 T2J JsonProofs NumProofs Base64Proofs T2JProofs
+From DG Require Import ProtoWireRef ThriftWire ThriftWireProofs Json Num Base64 T2J T2JUnset JsonProofs NumProofs Base64Proofs T2JProofs
                        T2JBytes T2JBytesProofs T2JBytesCmp.
 Import ListNotations.
 Local Open Scope Z_scope.
@@ -206,15 +206,15 @@ Proof.
 Qed.
 
 (* ---- check 304 accepts only the canonical text of the spec tree, doubles spelled by lexemes denoting their bits ---- *)
-Theorem check304_sound o v d n r m r' out : o_value_mapping o = false ->
+Theorem check304_sound o v d n r m r' out : o_value_mapping o = false -> o_write_default o = false -> o_write_required o = false ->
   wf v = true -> conforms v d = true -> desc_wf d = true -> desc_ok d = true ->
   (depth v <= n)%nat -> (depth v <= max_skip_depth)%nat ->
   t2j_walk_gen fd_mark o n d (encode v ++ r) = Some (m, r') ->
   text_agrees (S (length m)) m out = true ->
   exists e, json_of o d v = TOk e /\ jexp_finite e = true /\ agrees (jtoks e) out.
 Proof.
-  intros Hvm Hw Hc Hdw Hdo Hd Hs Hwalk Hag.
-  rewrite (walk_refines fd_mark o Hvm v d n r Hw Hc Hdw Hd Hs) in Hwalk.
+  intros Hvm Hwd Hwr Hw Hc Hdw Hdo Hd Hs Hwalk Hag.
+  rewrite (walk_refines fd_mark o Hvm Hwd Hwr v d n r Hw Hc Hdw Hd Hs) in Hwalk.
   unfold walk_spec, spec_text_fd in Hwalk.
   destruct (json_of o d v) as [e|e|c] eqn:E; try discriminate.
   destruct (jexp_finite e) eqn:Ef; [|discriminate]. inversion Hwalk; subst m r'.
@@ -226,14 +226,14 @@ Proof.
 Qed.
 
 (* the walk's own text is of that form: the exact text and every accepted text differ at double lexemes only *)
-Theorem walk_text_tokens o v d n r txt r' : o_value_mapping o = false ->
+Theorem walk_text_tokens o v d n r txt r' : o_value_mapping o = false -> o_write_default o = false -> o_write_required o = false ->
   wf v = true -> conforms v d = true -> desc_wf d = true ->
   (depth v <= n)%nat -> (depth v <= max_skip_depth)%nat ->
   t2j_walk n o d (encode v ++ r) = Some (txt, r') ->
   exists e, json_of o d v = TOk e /\ txt = render f64_exact_lexeme (jtoks e).
 Proof.
-  intros Hvm Hw Hc Hdw Hd Hs Hwalk. unfold t2j_walk in Hwalk.
-  rewrite (walk_refines f64_exact_lexeme o Hvm v d n r Hw Hc Hdw Hd Hs) in Hwalk.
+  intros Hvm Hwd Hwr Hw Hc Hdw Hd Hs Hwalk. unfold t2j_walk in Hwalk.
+  rewrite (walk_refines f64_exact_lexeme o Hvm Hwd Hwr v d n r Hw Hc Hdw Hd Hs) in Hwalk.
   unfold walk_spec, spec_text_fd in Hwalk.
   destruct (json_of o d v) as [e|e|c] eqn:E; try discriminate.
   destruct (jexp_finite e); [|discriminate]. inversion Hwalk; subst.
